@@ -395,6 +395,35 @@ def bounded(K):
                         except Exception as e:
                             signal.alarm(0)
                             bad.append(dict(case, problem=f'{type(e).__name__}: {e}'))
+        # the packaged routines with the detector's default dark current (a constant offset carried in the noise component) at very low
+        # launch power, where that offset is comparable to the signal
+        def chain_dark(bits, sps, shape, P):
+            gv(sps=sps, R=10e9)
+            v = DAC(np.asarray(bits), Vout=5.0, pulse_shape=shape)
+            cw = optical_signal(np.ones(v.len()) * np.sqrt(P), n_pol=1)
+            return PD(MZM(cw, v, bias=5.0, Vpi=5.0, loss_dB=0.0, ER_dB=30.0), BW=7.5e9, include_noise='ase-only')        # i_dark left at its default
+        for P in (1e-3, 1e-8):
+            for shape in ('nrz', 'gaussian'):
+                bits = rng.integers(0, 2, 128)
+                bits[:2] = (0, 1)
+                n_eval += 1
+                seen.add(('dark', P, shape))
+                case = {'routine': 'ook.DSP / ppm.DSP hard with default i_dark', 'P_W': P, 'shape': shape}
+                signal.alarm(240)
+                try:
+                    np.random.seed(1)
+                    out, _, _ = ook.DSP(chain_dark(bits, 16, shape, P))
+                    data = rng.integers(0, 2, 64)
+                    outp = ppm.DSP(chain_dark(np.asarray(PPM_ENCODER(data, 4).data).astype(int), 16, shape, P), 4, decision='hard')
+                    signal.alarm(0)
+                    e1, e2 = int(np.sum(np.asarray(out.data).astype(int) != bits)), int(np.sum(np.asarray(outp.data).astype(int) != data))
+                    if e1 or e2:
+                        bad.append(dict(case, problem=f'ook.DSP {e1} errors, ppm.DSP hard {e2} errors'))
+                except TO:
+                    bad.append(dict(case, problem='no result within 240 s'))
+                except Exception as e:
+                    signal.alarm(0)
+                    bad.append(dict(case, problem=f'{type(e).__name__}: {e}'))
         # counters on long sequences with many flipped bits (k beyond any 8/16-bit accumulator)
         for mod in (ook, ppm):
             for nb in (2048, 70000):
@@ -417,7 +446,7 @@ def bounded(K):
     K.bounded('link_decisions', st == 'ok' and r['nbad'] == 0,
               {'evaluations': r['n'] if st == 'ok' else 0, 'distinct_nontrivial': r['distinct'] if st == 'ok' else 0,
                'bound': ('64-bit sequences (random, PRBS7, alternating, single 1, single 0, runs of 8) x sps in ' + ('{4,5,8,16,33,64}' if thorough else '{4,5,16,33}') + ' x R in ' + ('{1,10}' if thorough else '{10}') +
-                         ' GHz x nrz/gaussian x 1/2 pol x {no medium, DM with |beta2 L| = 0.9% T^2, FIBER likewise} x ' + ('3' if thorough else '2') + ' device settings, preceded and followed by random patterns in descending order of sps (history independence); ook.DSP on 32..256 random/PRBS slots; ppm.DSP hard/soft M in {2,4,8,16}; counters with 1..5 flips, and on 2048/70000-bit sequences with k in {0,1,255,256,300,n/2,n} / {65535,65536,66000} flips'),
+                         ' GHz x nrz/gaussian x 1/2 pol x {no medium, DM with |beta2 L| = 0.9% T^2, FIBER likewise} x ' + ('3' if thorough else '2') + ' device settings, preceded and followed by random patterns in descending order of sps (history independence); ook.DSP on 32..256 random/PRBS slots; ppm.DSP hard/soft M in {2,4,8,16}; the same routines with the default dark current at 1 mW and 10 nW launch power; counters with 1..5 flips, and on 2048/70000-bit sequences with k in {0,1,255,256,300,n/2,n} / {65535,65536,66000} flips'),
                'samples': [{'pattern': 'runs', 'sps': 33, 'shape': 'gaussian', 'npol': 2, 'medium': 'fiber'}], 'failures': r if st == 'ok' else [st, r]})
 
 
